@@ -5,6 +5,7 @@ package main
 // recording a Finding with a replayable request when the real code breaks the property.
 
 import (
+	"unsafe"
 	"fmt"
 	"reflect"
 	"strconv"
@@ -1103,14 +1104,80 @@ func matrixShapes() []shape {
 		{"struct", Inner{}}, {"*struct", &Inner{}}, {"nil*struct", (*Inner)(nil)}, {"Wrap", Wrap{V: 1}},
 		{"chan", make(chan int)}, {"nil-chan", (chan int)(nil)}, {"func", func() {}}, {"nil-func", (func())(nil)}, {"unsafe", unsafePtrOf(&one)},
 		{"nil-iface-field", nilIface},
+		// values outside the modelled universe (the model answers U for a step that needs them; the
+		// real code must still return normally): maps keyed by pointers, arrays, structs, complex numbers,
+		// channels, interface keys of those kinds and a nil key; pointers to interfaces; non-empty
+		// interface types
+		{"map[*int]int", map[*int]int{&one: 1}}, {"map[[2]int]string", map[[2]int]string{{1, 2}: "1"}}, {"map[struct]int", map[struct{ A int }]int{{1}: 1}},
+		{"map[complex128]int", map[complex128]int{1: 1}}, {"map[chan]int", map[chan int]int{make(chan int): 1}}, {"map[float32]string", map[float32]string{1: "1"}},
+		{"map[interface{}]-odd-keys", map[interface{}]interface{}{nil: 1, &one: 2, [1]int{1}: 3, struct{ A int }{1}: 4, 1.5: 5, true: 6, MyStr("1"): 7}},
+		{"map[MyInt]int", map[MyInt]int{1: 1}}, {"map[MyBool]int", map[MyBool]int{true: 1}}, {"map[int8]int", map[int8]int{1: 1}}, {"map[uint64]int", map[uint64]int{1: 1}},
+		{"map[string]nil-map", map[string]map[string]interface{}{"1": nil}}, {"map[string][]*Inner", map[string][]*Inner{"1": {nil, {}}}},
+		{"*interface{}-nil", &nilIface}, {"*interface{}-int", func() *interface{} { var x interface{} = 1; return &x }()}, {"**struct-nil-inner", func() **Inner { var p *Inner; return &p }()},
+		{"Stringer", fmt.Stringer(Sev(1))}, {"[]Stringer", []fmt.Stringer{nil, Sev(1)}}, {"map[string]Stringer", map[string]fmt.Stringer{"1": Sev(1), "2": nil}}, {"error", fmt.Errorf("1")},
+		{"struct-with-Stringer", struct{ S fmt.Stringer }{Sev(1)}}, {"struct-with-nil-Stringer", struct{ S fmt.Stringer }{}}, {"[1]map", [1]map[string]int{{"1": 1}}}, {"[1][]int", [1][]int{{1}}},
+		{"[]func", []func(){nil}}, {"[]unsafe", []unsafe.Pointer{nil}}, {"[][2]byte", [][2]byte{{49, 50}}}, {"map[string][2]byte", map[string][2]byte{"1": {49, 50}}},
 	}
+}
+
+// systematicShapes: every element type of the zoo under every container constructor reflect offers
+// ([]T, [N]T, [0]T, *T, *[N]T, *[]T, []*T, [N]*T, map[string]T, []interface{}{T}, [1]interface{}{T}); the element
+// is the value the literal "1" denotes in that type where there is one.  The Go TYPE of the data is
+// what several seeded changes depended on (byte arrays vs byte slices, addressability, defined types).
+func systematicShapes() []shape {
+	elems := []shape{
+		{"bool", true}, {"int", 1}, {"int8", int8(1)}, {"int16", int16(1)}, {"int32", int32(1)}, {"int64", int64(1)},
+		{"uint", uint(1)}, {"uint8", uint8('1')}, {"uint16", uint16(1)}, {"uint32", uint32(1)}, {"uint64", uint64(1)},
+		{"float32", float32(1)}, {"float64", 1.0}, {"string", "1"}, {"MyStr", MyStr("1")}, {"MyInt", MyInt(1)}, {"MyBool", MyBool(true)},
+		{"Octet", Octet('1')}, {"MyFloat32", MyFloat32(1)}, {"json.Number", jsonNumber("1")}, {"struct", Inner{}}, {"[]byte", []byte("1")},
+		{"complex128", complex128(1)},
+	}
+	var out []shape
+	for _, e := range elems {
+		ev := reflect.ValueOf(e.val)
+		t := ev.Type()
+		sl := reflect.MakeSlice(reflect.SliceOf(t), 2, 2)
+		sl.Index(0).Set(ev)
+		arr := reflect.New(reflect.ArrayOf(2, t)).Elem()
+		arr.Index(1).Set(ev)
+		arr4 := reflect.New(reflect.ArrayOf(4, t)).Elem()
+		for i := 0; i < 4; i++ {
+			arr4.Index(i).Set(ev)
+		}
+		arr0 := reflect.New(reflect.ArrayOf(0, t)).Elem()
+		ptr := reflect.New(t)
+		ptr.Elem().Set(ev)
+		parr := reflect.New(arr.Type())
+		parr.Elem().Set(arr)
+		psl := reflect.New(sl.Type())
+		psl.Elem().Set(sl)
+		slp := reflect.MakeSlice(reflect.SliceOf(ptr.Type()), 2, 2)
+		slp.Index(0).Set(ptr)
+		arrp := reflect.New(reflect.ArrayOf(2, ptr.Type())).Elem()
+		arrp.Index(0).Set(ptr)
+		mp := reflect.MakeMap(reflect.MapOf(reflect.TypeOf(""), t))
+		mp.SetMapIndex(reflect.ValueOf("1"), ev)
+		out = append(out,
+			shape{"[]" + e.name, sl.Interface()}, shape{"[2]" + e.name, arr.Interface()}, shape{"[4]" + e.name, arr4.Interface()}, shape{"[0]" + e.name, arr0.Interface()},
+			shape{"*" + e.name, ptr.Interface()}, shape{"*[2]" + e.name, parr.Interface()}, shape{"*[]" + e.name, psl.Interface()},
+			shape{"[]*" + e.name, slp.Interface()}, shape{"[2]*" + e.name, arrp.Interface()}, shape{"map[string]" + e.name, mp.Interface()},
+			shape{"[]interface{}{" + e.name + "}", []interface{}{e.val, e.val}}, shape{"[1]interface{}{" + e.name + "}", [1]interface{}{e.val}})
+	}
+	return out
 }
 
 func fragMatrix(g *Gen, n int, o *Out) {
 	shapes := matrixShapes()
+	nBase := len(shapes)
+	shapes = append(shapes, systematicShapes()...)
 	lits := []string{"1", "a", "", "true", "1.5", "x y", "99999999999999999999", "<invalid Value>"}
 	total := 0
-	for _, sh := range shapes {
+	allLits := lits
+	for si, sh := range shapes {
+		lits = allLits
+		if si >= nBase {
+			lits = []string{"1", "a", ""}
+		}
 		// three placements: as the datum itself (selector misses), as a map value, as a struct field
 		holders := []interface{}{
 			map[string]interface{}{"v": sh.val},
